@@ -67,6 +67,13 @@ def evaluate(srcroot, pid):
                      "tests_with_change": tests, "check_result": info, "quiet": rc == 0 and not viol})
         dst = KEEP / bid
         dst.mkdir(parents=True, exist_ok=True)
+        if (dst / "meta.json").exists():   # keep the history: an alarm at the first run stays recorded
+            prev = json.loads((dst / "meta.json").read_text())
+            first = prev.get("first_check_result") or (prev["check_result"] if not prev.get("quiet") else None)
+            if first:
+                meta["first_check_result"] = first
+                meta["quiet"] = False
+                meta["after_fix"] = "quiet after the machinery was corrected" if (rc == 0 and not viol) else "still alarms"
         shutil.copy(sd / "patch.diff", dst / "patch.diff")
         (dst / "meta.json").write_text(json.dumps(meta, indent=1))
         print(bid, "quiet" if meta["quiet"] else "ALARM", tests, json.dumps(info)[:500], flush=True)
